@@ -311,8 +311,8 @@ def run_recorded(case):
         kw["disorder_epsilon"] = eps_user
     elif case["drive"] == "eps_t_loop":
         # the same, called site by site (one position, scalar result)
-        def eps_user(r, *, t):
-            return float(1.0 - (0.3 + 0.1 * np.sin(0.7 * t)) * np.exp(-((r[0] - 0.4) ** 2 + (r[1] + 0.2) ** 2)))
+        def eps_user(r, *, t, amp=0.3):  # a keyword-only default that is not 'vectorized': still called site by site
+            return float(1.0 - (amp + 0.1 * np.sin(0.7 * t)) * np.exp(-((r[0] - 0.4) ** 2 + (r[1] + 0.2) ** 2)))
 
         kw["disorder_epsilon"] = eps_user
     opts = tdgl.SolverOptions(solve_time=4.0, dt_init=case["dt_init"], dt_max=2 * case["dt_init"], adaptive=True, adaptive_window=2,
